@@ -108,7 +108,7 @@ func scenC02(k *K) {
 		var st []string
 		for i, s := range c.Stores {
 			rs, _ := ReplStats(s)
-			st = append(st, fmt.Sprintf("n%d: len=%d repl=%+v", i, len(LogHashSet(s)), rs))
+			st = append(st, fmt.Sprintf("n%d: len=%d repl=%+v heads=%v log=%v", i, len(LogHashSet(s)), rs, c.names(HeadHashes(s)), LogNames(s)))
 		}
 		k.Failf("C02/missing-after-heal", "%d steps and %v virtual after the final heal (rest reached: %v): %v; %v; pending=%v", k.W.step-healStep, "<=180s", rest, missing, st, k.PendingDesc())
 	}
